@@ -325,6 +325,50 @@ def g_grid(F, rng, tier):
     return out
 
 
+def exact_products(F, rng, quick):
+    """(w, q) with q in 0..27 and P = w * 5^q below 2^64 (the low word of Eisel-Lemire's 128-bit product is zero and the
+    second table word is zero), with the bits of P below the float's precision + 3 forced to a pattern: all ones (the
+    only case in which the second multiplication runs although nothing can carry), one below / at / one above a tie"""
+    out = []
+    K = 64 - (F.mbits + 3)
+    for qq in range(0, 28):
+        f5 = 5 ** qq
+        for L in (64, 63, 62):
+            for k in (K, K + 1, K - 1, K + 2):
+                lo_w, hi_w = -(-(1 << (L - 1)) // f5), ((1 << L) - 1) // f5
+                if hi_w - lo_w < (1 << k) or k < 2:
+                    continue
+                ones = (1 << k) - 1
+                pats = [ones, ones >> 1, 1 << (k - 1), (1 << (k - 1)) + 1, 0, 1, ones - 1]
+                for pat in (pats if not quick else rng.sample(pats, 3) + [ones]):
+                    w0 = (pat * pow(f5, -1, 1 << k)) % (1 << k)
+                    tmin = -(-(lo_w - w0) // (1 << k))
+                    tmax = (hi_w - w0) // (1 << k)
+                    if tmax < tmin:
+                        continue
+                    w = w0 + rng.randrange(tmin, tmax + 1) * (1 << k)
+                    assert (w * f5) % (1 << k) == pat and (w * f5).bit_length() == L
+                    out.append((w, qq))
+    return out
+
+
+def g_exact_products(F, rng, tier):
+    """G15: the (w, q) above as parse inputs: w x 10^q written short, with a far-out digit (w truncated: the moderate
+    stage compares w and w+1), and w-1 with a tail of nines"""
+    out = []
+    for (w, qq) in exact_products(F, rng, tier == "quick"):
+        if w >= 10 ** 19:
+            continue
+        ds = str(w)
+        t = ds.rstrip("0") or "0"
+        i, f, e = rng.choice(forms(t, qq + len(ds) - len(t), rng, nforms=2, long_ok=False))
+        out.append(mk(F.name, i, f, e, "G15:exact-product"))
+        if len(ds) == 19:
+            out.append(mk(F.name, ds, "0" * 10 + "1", qq, "G15:exact-product-far1"))
+            out.append(mk(F.name, str(w - 1), "9" * 12, qq, "G15:exact-product-nines"))
+    return out
+
+
 def g_floats_exact(F, rng, n):
     """exactly representable values (the float itself, not the midpoint)"""
     out = []
@@ -659,6 +703,10 @@ def g_moderate(F, rng, tier):
         w = rng.getrandbits(rng.choice([64, 64, 63, 60, 54, 30]))
         qq = rng.randrange(F.p10_lo - 3, F.p10_hi + 4)
         add(w, qq, rng.random() < 0.5, "G3:random")
+    for (w, qq) in exact_products(F, rng, q):
+        add(w, qq, False, "G3:exact-product")
+        add(w, qq, True, "G3:exact-product-trunc")
+        add(w - 1, qq, True, "G3:exact-product-trunc")
     # exact ties with <= 19 digits: every q of the tie window (+-2), both parities of the lower neighbour
     for (w, qq) in short_ties(F, rng, 2 if q else 8):
         add(w, qq, False, "G3:window")
@@ -757,6 +805,43 @@ def g_chains(F, rng, tier):
         out.append(chain_of(F, vals, rng, "C09:range-end"))
     for k, r in enumerate(out):
         r["id"] = k + 1
+    return out
+
+
+# ------------------------------------------------------------- C16 histories
+
+def g_histories(F, rng, tier):
+    """call HISTORIES for C16: short sequences of RELATED inputs, to be run back to back on one thread.  Around a midpoint
+    with > 20 digits: its 19-digit prefix (`short`, decided without the big integers), the value just below (`below`,
+    ...999), the exact tie, the value just above (`above`, far-out 1), all sharing the first 19 digits and the adjusted
+    exponent; plus the same digits with the exponent one off, and the same text in the other float format.  Anything
+    remembered from one call under a key that is too coarse (first digits, exponent, length, format) shows up as a
+    result that differs from what a fresh process returns.  Returns a list of sequences of records."""
+    q = tier == "quick"
+    other = "f32" if F.name == "f64" else "f64"
+    out = []
+    fields = [0, 1, F.bias, F.bias + F.mbits + 1, F.emaxfield - 1] + rng.sample(range(2, F.emaxfield - 1), 25 if q else 250)
+    for ef in fields:
+        bits = (ef << F.mbits) | rng.choice(sig_patterns(F, rng, 2))
+        M, k = F.midpoint(bits)
+        ds, e10 = exact_decimal(M, k)
+        n = len(ds)
+        if n < 22:
+            continue
+        v = int(ds)
+        def rec(d, e, fmt=F.name):
+            d = d.lstrip("0")
+            return mk(fmt, d[:1], d[1:], e + len(d) - 1, "C16:hist")
+        short = rec(ds[:19], e10 + n - 19)
+        shortup = rec(str(int(ds[:19]) + 1), e10 + n - 19)
+        exact = rec(ds, e10)
+        above = rec(ds + "0" * 5 + "1", e10 - 6)
+        below = rec(str(v - 1) + "9" * 6, e10 - 6)
+        above_e = rec(ds + "0" * 5 + "1", e10 - 5)
+        seqs = [[short, above], [short, below], [above, short], [above, below], [below, above], [exact, above], [above, exact],
+                [short, exact, below, above, short], [shortup, below], [above_e, above], [above, above_e],
+                [dict(above, fmt=other), above], [dict(short, fmt=other), short, below], [above, above, below, below, above]]
+        out += seqs if not q else rng.sample(seqs, 7)
     return out
 
 
